@@ -703,6 +703,23 @@ class Dataset(AbstractDataset, dict, OpMixin, GetSetDelAttrMixin):
         else:
             values = np.asarray(values)
 
+        # empty axis: nothing to take from, every requested label is missing (like DimArray.reindex_axis)
+        ax = self.axes[axis]
+        if ax.size == 0 and values.size > 0:
+            if raise_error:
+                raise IndexError("Some values where not found in the axis: {}".format(values))
+            dataset = self.__class__()
+            newax = Axis(values, ax.name)
+            newax.attrs.update(ax.attrs)
+            dataset.axes = [axx.copy() if axx.name != ax.name else newax for axx in self.axes]
+            for k in self.keys():
+                item = self[k]
+                if ax.name in item.dims:
+                    item = item.reindex_axis(values, axis=ax.name, fill_value=fill_value)
+                dataset[k] = item
+            dataset.attrs.update(self.attrs)
+            return dataset
+
         # take axis, do not raise error
         dataset = self.take_axis(values, axis=axis, indexing='label', 
                                  mode='raise' if raise_error else 'clip')
